@@ -405,6 +405,60 @@ def walk_items(items):
     yield from rec(items, ())
 
 
+def subst_names(e, env):
+    """expression with template variables replaced by the expressions bound to them"""
+    if not isinstance(e, tuple) or not e:
+        return e
+    if e[0] == "name":
+        return env.get(e[1], e)
+    if e[0] == "const":
+        return e
+    return tuple(subst_names(x, env) if isinstance(x, tuple) else x for x in e)
+
+
+def _targets(t):
+    if t is None:
+        return set()
+    if t[0] == "name":
+        return {t[1]}
+    if t[0] in ("tuple", "list"):
+        return set().union(*[_targets(x) for x in t[1]]) if t[1] else set()
+    return set()
+
+
+def inline_sets(items, env=None):
+    """The same items with every `{% set name = expr %}` substituted into the expressions that follow it in its scope (the set
+    items themselves are dropped; this is also how an expanded macro call binds its parameters), and an output `{{ "lit" ~ x }}`
+    split into the text `lit` followed by the output `x`.  Loop targets shadow; a name set under an undecided `{% if %}` is
+    unknown afterwards (left as a name)."""
+    env = dict(env or {})
+    out = []
+    for it in items:
+        k = it[0]
+        if k == "set" and it[1][0] == "name":
+            env[it[1][1]] = subst_names(it[2], env)
+        elif k == "out":
+            e = subst_names(it[1], env)
+            for part in (e[1] if e[0] == "concat" else (e,)):
+                if part[0] == "const" and isinstance(part[1], str):
+                    out.append(("text", part[1], it[2], it[3]))
+                else:
+                    out.append(("out", part, it[2], it[3]))
+        elif k == "for":
+            inner = {n: v for n, v in env.items() if n not in _targets(it[1]) and n != "loop"}
+            out.append(("for", it[1], subst_names(it[2], env), tuple(inline_sets(it[3], inner)), tuple(inline_sets(it[4], env)), it[5], it[6],
+                        subst_names(it[7], inner)))
+        elif k == "if":
+            out.append(("if", subst_names(it[1], env), tuple(inline_sets(it[2], env)), tuple(inline_sets(it[3], env)), it[4], it[5]))
+            for sub, _ in walk_items(it[2] + it[3]):
+                if sub[0] == "set":
+                    for n in _targets(sub[1]):
+                        env.pop(n, None)
+        else:
+            out.append(it)
+    return out
+
+
 def _walk_all(tree, rel):
     for it, _ in walk_items(flatten(tree, rel, {})):
         yield it
